@@ -134,7 +134,8 @@ func NTSOpenResponse(pkt, key, uid []byte) (cookies [][]byte, problem string) {
 			if nl != 16 || 4+np+cl > len(f.Body) {
 				return nil, "authenticator lengths do not fit the field"
 			}
-			if string(gotUID) != string(uid) {
+			// the field body is padded to a multiple of four bytes
+			if len(gotUID) < len(uid) || len(gotUID) > len(uid)+3 || string(gotUID[:len(uid)]) != string(uid) {
 				return nil, "unique identifier differs from the request's"
 			}
 			aead, err := miscreant.NewAEAD("AES-CMAC-SIV", key, 16)
